@@ -1,17 +1,31 @@
 """C12 — monotonic fitting terminates with the same result under every thread schedule.
-Proof: PsV/Props/C12.lean about the transition system PsV.Sync (model of the REPAIRED hand-shake, fixes/C12-1.diff):
-  C12_inv_preserved, C12_invariants, C12_no_deadlock, C12_results_ready_when_read, C12_no_data_race,
-  C12_rank_decreases, C12_terminates, C12_result_is_sequential, C12_result_schedule_independent,
-  C12_result_worker_count_independent; for the code as published: C12_lost_wakeup_reachable, C12_unrepaired_deadlocks.
+Proof: PsV/Props/C12.lean (31 theorems) about the transition system PsV.Sync and its data-carrying refinement
+PsV.Sync.DState (Model/SyncData.lean):
+  safety      C12_inv_preserved, C12_invariants, C12_results_ready_when_read, C12_no_data_race, C12_no_step_before_create,
+              C12_teardown_safe
+  liveness    C12_no_deadlock, C12_rank_decreases, C12_terminates, C12_step_bound, C12_no_infinite_execution,
+              C12_maximal_run_completes, C12_progress_measure, C12_strongly_fair_terminates; weak fairness is not enough:
+              C12_spurious_cycle, C12_weak_fairness_not_enough, C12_weakly_fair_infinite_execution
+  result      C12_result_is_sequential, C12_select_spec, C12_result_schedule_independent, C12_result_worker_count_independent,
+              C12_data_refines_control, C12_compute_inputs_stable, C12_scanned_records, C12_data_result_is_sequential,
+              C12_data_schedule_and_worker_count_independent, C12_each_trial_evaluated_once, C12_blocks_started
+  published   C12_lost_wakeup_reachable, C12_unrepaired_deadlocks; finding C12_factor_update_depends_on_worker_count
 Tie: the real cholesky_solve.c compiled with the forced-include shim harness/c12_shim.h; every pthread call yields to the
 deterministic scheduler in harness/c12_harness.cpp (real threads, one runnable at a time).
   (a) code -> model: traces under seeded random / PCT / starvation / non-preemptive schedules (and a sample of the harness's
-      own bounded-preemption DFS) are replayed op by op on PsV.Sync.step? (op kind, enabledness, worker states, mutex owner,
-      alpha indices, rank decrease, final choice); result must equal the thread-free sequential oracle bit for bit.
+      own bounded-preemption DFS) are replayed op by op on the DATA model stepD?/spurD? (control part compared with step?/spur?
+      at every step): op kind, enabledness, worker states, mutex owner, alpha indices, rank decrease, per-computation data
+      (alpha index, x unchanged, record == oracle trial), final outputs == seqD, exactly-once counts, teardown;
+      result must equal the thread-free sequential oracle bit for bit.
   (b) model -> code: the driver explores the model's state graph (incl. spurious wake-ups) and emits schedules covering every
       explored transition; each is forced through the real code (a forced thread that is not runnable = mismatch; no runnable
-      thread before return = deadlock); also the lost-wake-up witness schedule produced by the model of the unrepaired code.
-Supporting evidence: the real nnls_normal_block3 with real threads for OMP_NUM_THREADS 1..32, coefficients bitwise equal."""
+      thread before return = deadlock).
+  (A') the code AS PUBLISHED is regenerated on every run (working tree with fixes/C12-1.diff reverse-applied) and tied to the
+      model with repaired=false: the schedule of C12_lost_wakeup_reachable, emitted by the driver from the Lean definition, must
+      deadlock it; seeded schedules and model-generated (deadlock / covering) schedules both ways.
+Supporting evidence: the real nnls_normal_block3 with real threads for OMP_NUM_THREADS 1..32, coefficients bitwise equal; a
+difference is attributed by repeating the sweep on a copy with fixes/C12-2.diff applied (modify_factor's thread-dependent
+threshold) and by evaluating PsV.Sync.factorUpdate on the solver's own log."""
 import hashlib, json, os, subprocess, time
 import psvlib
 
